@@ -79,6 +79,7 @@ type liveSim struct {
 	atHeal    func()
 	notes     []string
 	byzSent   map[string]bool
+	lockedBy  int64
 }
 
 func (s *liveSim) note(f string, a ...any) {
@@ -125,6 +126,10 @@ func (s *liveSim) schedule(from int, m *sent) {
 				}
 			case "blackout":
 				continue
+			case "all-locked": // an honest leader's round runs until every replica is locked, then nothing gets through
+				if s.now > s.lockedBy {
+					continue
+				}
 			}
 		}
 		s.seq++
@@ -362,7 +367,8 @@ func liveMode(seed int64, runs int, outPath string) error {
 	enc := json.NewEncoder(bw)
 	rng := rand.New(rand.NewSource(seed))
 	commitTimeoutMS = lib.DefaultConfig().CommitTimeoutMS
-	prefixes := []string{"none", "skew", "loss", "partition", "blackout", "hidden-qc", "one-locked"}
+	strictBuildHeight = true
+	prefixes := []string{"none", "skew", "loss", "partition", "blackout", "hidden-qc", "one-locked", "all-locked"}
 	plans := []string{"silent", "highqc-with-block", "highqc-without-block"}
 	names := []string{"n1", "n2", "n3", "b1"}
 	const maxRounds = 10
@@ -420,6 +426,12 @@ func liveMode(seed int64, runs int, outPath string) error {
 			s.healAt = 0
 		case "hidden-qc", "one-locked": // right after the Byzantine leader's round
 			s.healAt = round0 + 1000
+		case "all-locked":
+			s.healAt = round0 + 1000
+			for _, p := range []lib.Phase{bft.Election, bft.ElectionVote, bft.Propose, bft.ProposeVote} {
+				s.lockedBy += w.nodes[0].b.WaitTime(p, 0).Milliseconds()
+			}
+			s.lockedBy += 1500 // the leader's PRECOMMIT message has arrived everywhere (skew < 800 ms, delay < 420 ms): every replica locks; the votes are lost
 		default:
 			s.healAt = round0 + int64(rng.Intn(int(2*round0)))
 		}
